@@ -49,6 +49,10 @@ Direct oracles (failing-input search):
     every step;
   * every class-instance filter called with its optional arguments and then with
     the defaults on shared Environments (oracle-only stream);
+  * round-8 reviewer observations: one loader shared by two Environments with
+    different options, Templates held while other callers load the same name, the
+    documentation's tag-dispatching loader under the caching mixin, an edited
+    CachingDictLoader dictionary (recorded findings under their signatures);
   * analysis steps (with every helper built on them, sync / async) of templates
     that include / render / extend a cached template the caller holds with its
     own globals, followed by renders of every held Template;
@@ -2390,6 +2394,196 @@ def matter_stream(chk: C.Check, pristine: "Pristine", r: Any, rounds: int) -> in
     return n
 
 
+# ---------------------------------------------------------------- round-8 reviewer observations (oracle only)
+#
+# Caching loaders seen from several callers: a loader shared by two Environments with different
+# options, Template objects held while other callers load the same name, the documentation's
+# tag-dispatching loader under the caching mixin, a CachingDictLoader whose dictionary is edited.
+# Every call must equal the same call on freshly built objects.  Differences that are exactly a
+# recorded finding go under its signature (KNOWN-FINDING while it is open, nothing once it is
+# fixed); anything else is a violation.
+
+
+def _snippets_loader(fixed: bool) -> type:
+    """docs/loading_templates.md "Load context": include / render look in snippets/.
+    fixed=False is the example verbatim; fixed=True also overrides cache_key()
+    (proposed_fixes/C09/0005)."""
+    import pathlib
+
+    import liquid2
+
+    class SnippetsFileSystemLoader(liquid2.CachingFileSystemLoader):
+        def get_source(self, env, template_name, *, context=None, **kwargs):  # type: ignore[no-untyped-def]
+            if kwargs.get("tag") in ("include", "render"):
+                snippet = pathlib.Path("snippets").joinpath(template_name)
+                return super().get_source(env, template_name=str(snippet), context=context, **kwargs)
+            return super().get_source(env, template_name=template_name, context=context, **kwargs)
+
+        async def get_source_async(self, env, template_name, *, context=None, **kwargs):  # type: ignore[no-untyped-def]
+            if kwargs.get("tag") in ("include", "render"):
+                template_name = str(pathlib.Path("snippets").joinpath(template_name))
+            return await super().get_source_async(env, template_name=template_name, context=context, **kwargs)
+
+        if fixed:
+            def cache_key(self, name, context, args):  # type: ignore[no-untyped-def]
+                key = super().cache_key(name, context, args)
+                return f"snippets/{key}" if args.get("tag") in ("include", "render") else key
+
+    return SnippetsFileSystemLoader
+
+
+def _r8_call(loop: Any, env: Any, name: str, is_async: bool, gl: dict | None = None, **data: Any) -> tuple:
+    try:
+        t = (loop.run_until_complete(env.get_template_async(name, globals=gl)) if is_async
+             else env.get_template(name, globals=gl))
+        if t.env is not env:
+            return ("wrong-environment", type(t.env).__name__)
+        return _call(loop, lambda: t.render(**data), lambda: t.render_async(**data), is_async)
+    except Exception as e:  # noqa: BLE001
+        return exc_obs(e)
+
+
+def round8_stream(chk: C.Check, r: Any, rounds: int) -> dict[str, int]:
+    import liquid2
+
+    counts = {"calls": 0, "differences-under-a-recorded-finding": 0}
+    loop = asyncio.new_event_loop()
+
+    def check(label: str, known: str | None, got: tuple, want: tuple, detail: dict[str, Any]) -> None:
+        counts["calls"] += 1
+        if got == want:
+            return
+        if known is not None:
+            counts["differences-under-a-recorded-finding"] += 1
+        chk.finding(known or ("r8:" + label),
+                    f"{label}: {detail.get('call')} on shared objects gives {got}; the same call on freshly built objects gives {want}",
+                    dict(detail, shared=got, fresh=want, how="harness/c09.py round8_stream"))
+
+    try:
+        for _ in range(rounds):
+            CLOCK.k = 0
+            # ---- A. the documented tag-dispatching loader under the caching mixin
+            for fixed in (True, False):
+                root = _scratch()
+                try:
+                    os.mkdir(os.path.join(root, "snippets"))
+                    files = {"header": "PAGE {{ g }}", "snippets/header": "SNIP {{ g }}{{ x }}",
+                             "index": "i[{% render 'header' %}|{% include 'header' %}]",
+                             "about": "a[{% include 'header' %}]", "snippets/footer": "F({% render 'header', x: 1 %})",
+                             "home": "{% extends 'header' %}", "legal": "l[{% render 'footer' %}]"}
+                    _write_tree(root, files, 0)
+                    cls = _snippets_loader(fixed)
+                    env = liquid2.Environment(loader=cls(root), globals={"g": "G"})
+                    order = ["index", "header", "about", "header", "legal", "home", "header", "index"]
+                    if r.random() < 0.5:
+                        order = ["header", "index", "header", "home", "legal", "about", "header"]
+                    for name in order:
+                        is_async = r.random() < 0.4
+                        got = _r8_call(loop, env, name, is_async)
+                        want = _r8_call(loop, liquid2.Environment(loader=cls(root), globals={"g": "G"}), name, False)
+                        check("tag-dispatching caching loader" + ("" if fixed else " (docs example verbatim)"),
+                              None if fixed else "caching-loader-cache-key-ignores-what-get_source-dispatches-on", got, want,
+                              {"call": f"get_template({name!r}).render()", "async": is_async, "files": files, "order": order,
+                               "cache_key_overridden": fixed})
+                finally:
+                    shutil.rmtree(root, ignore_errors=True)
+
+            # ---- B. one loader shared by two Environments with different options
+            src = {"t": "{{ x }}|{{ g }}|{{ x | shout }}", "u": "u[{% include 't' %}{% render 't', x: x %}]", "b": "<{% block k %}{{ g }}{% endblock %}>",
+                   "c": "{% extends 'b' %}{% block k %}c{{ x }}{{ block.super }}{% endblock %}"}
+            for kind in ("DictLoader", "CachingDictLoader", "FileSystemLoader", "CachingFileSystemLoader", "CachingChoiceLoader"):
+                root = _scratch()
+                try:
+                    _write_tree(root, src, 0)
+
+                    def mk_loader() -> Any:
+                        if kind.endswith("DictLoader"):
+                            return getattr(liquid2, kind)(dict(src))
+                        if kind == "CachingChoiceLoader":
+                            return liquid2.CachingChoiceLoader([liquid2.DictLoader({}), liquid2.DictLoader(dict(src))])
+                        return getattr(liquid2, kind)(root)
+
+                    def mk_env(i: int, loader: Any) -> Any:
+                        e = liquid2.Environment(loader=loader, auto_escape=(i == 1), globals={"g": f"<G{i}>"})
+                        e.filters["shout"] = (lambda v: str(v) + "!") if i == 0 else (lambda v: str(v).upper())
+                        return e
+
+                    shared = mk_loader()
+                    envs = [mk_env(0, shared), mk_env(1, shared)]
+                    calls = [(i, n) for n in ("t", "u", "c", "b") for i in (0, 1)]
+                    r.shuffle(calls)
+                    for i, name in calls + calls[:3]:
+                        is_async = r.random() < 0.4
+                        got = _r8_call(loop, envs[i], name, is_async, x="<i>")
+                        want = _r8_call(loop, mk_env(i, mk_loader()), name, False, x="<i>")
+                        check(f"{kind} shared by two Environments",
+                              "shared-caching-loader-serves-another-environments-template" if kind.startswith("Caching") else None,
+                              got, want, {"call": f"environment {i}: get_template({name!r}).render(x='<i>')", "async": is_async,
+                                          "loader": kind, "sources": src,
+                                          "environments": "0: plain, g=<G0>, shout appends '!'; 1: auto_escape, g=<G1>, shout upper-cases"})
+                finally:
+                    shutil.rmtree(root, ignore_errors=True)
+
+            # ---- C. a Template someone holds, rendered after other callers loaded the same name
+            for kind in ("CachingDictLoader", "CachingFileSystemLoader"):
+                root = _scratch()
+                try:
+                    hsrc = {"t": "Hello {{ user }}{{ n }}", "w": "w({% include 't' %})"}
+                    _write_tree(root, hsrc, 0)
+                    env = liquid2.Environment(loader=(liquid2.CachingDictLoader(dict(hsrc)) if kind == "CachingDictLoader"
+                                                      else liquid2.CachingFileSystemLoader(root)))
+                    a_async, b_async = r.random() < 0.5, r.random() < 0.5
+                    alice = (loop.run_until_complete(env.get_template_async("t", globals={"user": "alice"})) if a_async
+                             else env.get_template("t", globals={"user": "alice"}))
+                    first = _call(loop, lambda: alice.render(), lambda: alice.render_async(), False)
+                    bob = (loop.run_until_complete(env.get_template_async("t", globals={"user": "bob", "n": 2})) if b_async
+                           else env.get_template("t", globals={"user": "bob", "n": 2}))
+                    detail = {"loader": kind, "sources": hsrc}
+                    check("held Template after another caller's get_template", "cache-hit-rebinds-held-template-globals",
+                          _call(loop, lambda: alice.render(), lambda: alice.render_async(), a_async), ("text", "Hello alice"),
+                          dict(detail, call="alice = get_template('t', globals={'user': 'alice'}); get_template('t', globals={'user': 'bob', 'n': 2}); alice.render()"))
+                    check("the later caller's own Template", None,
+                          _call(loop, lambda: bob.render(), lambda: bob.render_async(), b_async), ("text", "Hello bob2"),
+                          dict(detail, call="bob.render()"))
+                    _r8_call(loop, env, "w", False)
+                    env.get_template("w").analyze()
+                    env.get_template("t")
+                    check("held Template after a plain get_template of the same name", "cache-hit-rebinds-held-template-globals",
+                          _call(loop, lambda: alice.render(), lambda: alice.render_async(), False), ("text", "Hello alice"),
+                          dict(detail, call="... get_template('t'); alice.render()"))
+                    check("first render of the held Template", None, first, ("text", "Hello alice"), dict(detail, call="alice.render()"))
+                finally:
+                    shutil.rmtree(root, ignore_errors=True)
+
+            # ---- D. CachingDictLoader(auto_reload=True) over a dictionary that is edited
+            sources = {"t": "old {{ g }}", "p": "p-old", "top": "T[{% include 'p' %}{% render 'p' %}]", "kid": "{% extends 't' %}"}
+            env = liquid2.Environment(loader=liquid2.CachingDictLoader(sources, auto_reload=True), globals={"g": "G"})
+
+            def fresh_d(name: str) -> tuple:
+                return _r8_call(loop, liquid2.Environment(loader=liquid2.CachingDictLoader(dict(sources), auto_reload=True),
+                                                          globals={"g": "G"}), name, False)
+
+            held_top = env.get_template("top")
+            for name in ("t", "top", "kid"):
+                check("CachingDictLoader before any edit", None, _r8_call(loop, env, name, r.random() < 0.4), fresh_d(name),
+                      {"call": f"get_template({name!r}).render()", "sources": dict(sources)})
+            edits = [("t", "new {{ g }}"), ("p", "p-new"), ("t", "newer"), ("p", "p-old")]
+            for key, text in edits:
+                sources[key] = text
+                for name in ("t", "top", "kid"):
+                    is_async = r.random() < 0.4
+                    check("CachingDictLoader(auto_reload=True) after its dictionary was edited", "caching-dict-loader-never-reloads",
+                          _r8_call(loop, env, name, is_async), fresh_d(name),
+                          {"call": f"sources[{key!r}] = {text!r}; get_template({name!r}).render()", "async": is_async,
+                           "sources_now": dict(sources)})
+                check("held Template whose partial was edited", "caching-dict-loader-never-reloads",
+                      _call(loop, lambda: held_top.render(), lambda: held_top.render_async(), r.random() < 0.4), fresh_d("top"),
+                      {"call": f"sources[{key!r}] = {text!r}; held_top.render()", "sources_now": dict(sources)})
+        return counts
+    finally:
+        loop.close()
+
+
 # ---------------------------------------------------------------- classification
 
 
@@ -2678,6 +2872,9 @@ def _main(chk: C.Check, pristine: Pristine) -> None:
     dist["choice-loader-fault-free-steps-on-duplicate-names"] = n_choice_dup
     dist["concurrent-tasks"] = n_conc
     dist["concurrent-cold-waves-loading-one-name-twice"] = n_conc_collide
+    r8 = round8_stream(chk, r, 3 if thorough else 1)
+    dist["round8-calls"] = r8["calls"]
+    dist["round8-differences-under-a-recorded-finding"] = r8["differences-under-a-recorded-finding"]
     n_matter = matter_stream(chk, pristine, r, 2 if thorough else 1)
     n_pristine += n_matter
     dist["matter-renders"] = n_matter
